@@ -362,7 +362,7 @@ pub fn run(e: &Engine) {
     e.campaign(
         "undo-histories",
         "1-13 actions from commit (with/without leading undo point; sets with unique values, removals, deletes of populated tasks, creates), undo, stale undo, undo after sync, sync; on both storages; model = operation log with the state before each operation; non-trivial = an undone segment contained a delete of a populated task or a property removal, or the undo was second-level or followed a sync",
-        e.tier.pick(6000, 300_000),
+        e.tier.pick(60_000, 1_500_000),
         || strategy(1),
         |c| serde_json::to_value(c).unwrap(),
         check_case,
